@@ -36,6 +36,7 @@ def run(ctx):
     ctx.each(c20.r20i, ctx, repo)  # 'improperly nested cascades' are among the documented rules a loader must refuse
     from . import c16
 
+    ctx.each(r18h, ctx, repo)
     ctx.each(c16.pop_matrix_rows_rule, ctx, repo, "R18g")  # the blank databook the library writes for an accepted framework reads back: the tables of a connection sheet do not overlap
 
 
@@ -688,3 +689,21 @@ def r18f(ctx, repo):
     for e in extra[:20]:
         ctx.note("R18f", "refusal not in the confirmed table (new rule): %s `%s`" % (e["function"], e["key"][:60]))
     ctx.require(n >= 100, "R18f: the confirmed table shrank (%d entries)" % n)
+
+
+def r18h(ctx, repo):
+    ctx.rule("R18h", "every databook page a quantity is placed on exists in the blank databook: _validate_compartments, _validate_characteristics and _validate_parameters each register the pages used by *their own* table (`self.comps`, `self.characs`, `self.pars`) that are missing from the 'Databook Pages' sheet - three sibling blocks that differ only in the table; a block that looks at a sibling's table leaves the pages used only by its own quantities unregistered, the blank databook then lacks those tables, and the library rejects the databook it wrote itself")
+    n = 0
+    for q, table in (("ProjectFramework._validate_compartments", "comps"), ("ProjectFramework._validate_characteristics", "characs"), ("ProjectFramework._validate_parameters", "pars")):
+        fi = repo.func("framework", q)
+        me = fi.params[0]
+        mp = [s_ for s_ in own_nodes(fi.node) if isinstance(s_, ast.Assign) and isinstance(s_.targets[0], ast.Name) and s_.targets[0].id == "missing_pages"]
+        if len(mp) != 1:
+            ctx.fail("R18h", fi, fi.node, "%s no longer computes the databook pages missing from the 'Databook Pages' sheet" % q, stmt_text="missing-pages:absent")
+            continue
+        n += 1
+        used = {ast.unparse(x.value) for x in ast.walk(mp[0].value) if isinstance(x, ast.Subscript) and isinstance(x.slice, ast.Constant) and x.slice.value == "databook page"}
+        ok = used == {"%s.%s" % (me, table)}
+        reg = [s_ for s_ in own_nodes(fi.node) if isinstance(s_, ast.Assign) and "databook pages" in ast.unparse(s_.targets[0]) and any(isinstance(x, ast.Name) and x.id == "missing_pages" for x in ast.walk(s_.value))]
+        ctx.check(ok and len(reg) == 1, "R18h", fi, mp[0], "%s registers the pages of self.%s" % (q.split(".")[1], table), "%s computes the missing databook pages from %s instead of `self.%s` (or no longer appends them to the 'Databook Pages' sheet): pages used only by its own quantities are never registered" % (q, sorted(used), table), stmt_text="missing-pages:%s" % table)
+    ctx.require(n == 3, "R18h: the three sibling blocks were not all found (%d)" % n)
